@@ -783,11 +783,9 @@ theorem renameStmt_eq {db : DB} (hw : db.WF) {k nk : Bytes} {now : Int} {r : Key
       = ((db.deleteKeysWhere (fun x => x.key == nk && x.id != r.id)).1).updKey r.id
           (fun _ => renamedRow r nk now) := by
   obtain ⟨hr, hrk, _⟩ := liveKey_some hlk
-  have hpr : (fun x : KeyRow => x.key == nk && x.id != r.id) r = false := by
-    have : (r.key == nk) = false := by rw [hrk]; simpa using hne
-    simp [this]
+  have hkn : (r.key == nk) = false := by rw [hrk]; simpa using hne
   have hr1 : r ∈ (db.deleteKeysWhere (fun x => x.key == nk && x.id != r.id)).1.keys := by
-    rw [Clean.deleteKeysWhere_keys]; exact List.mem_filter.2 ⟨hr, by simp [hpr]⟩
+    rw [Clean.deleteKeysWhere_keys]; exact List.mem_filter.2 ⟨hr, by simp [hkn]⟩
   simp only [renameStmt, hlk]
   exact updKey_const (dkw_wf hw _).ids hr1 _
 
